@@ -237,6 +237,57 @@ theorem cancel_keeps_load (c : Nat) (hs : step cfg s (Op.cancelCaller c) = some 
     · simp [waitersOf_removeWaiter, hw]
     · simp [hc, hne]
 
+/-- A finished load is forgotten at once: in the very block in which the load of `k` ends (with a value or with an exception) `k`
+leaves `_futures` — so whatever is issued next, even in the same turn of the event loop, cannot join the finished load. -/
+theorem finished_load_is_forgotten (h : run cfg ops = some (s, tr)) (k : Nat)
+    (hop : op = Op.loadFail k ∨ ∃ v, op = Op.loadOk k v) (hs : step cfg s op = some (s', e)) : k ∉ ikeys s'.inflight := by
+  have hi := reach_inv (run_reach h)
+  have hd := mem_ikeys_dropKey (k := k) (k' := k) hi.inodup
+  rcases hop with rfl | ⟨v, rfl⟩ <;>
+  · simp only [step] at hs
+    split at hs
+    · simp at hs
+    · simp at hs; obtain ⟨rfl, _⟩ := hs
+      rw [hd]; simp
+
+/-- …hence a lookup of `k` issued after a FAILED load of `k` (in a later turn or in the same one) starts a load of its own and
+waits for it: it never re-raises the stale error.  (After a successful load it is a hit of the value just put, see
+`cached_value_is_a_hit`.) -/
+theorem lookup_after_failed_load_starts_its_own (h : run cfg ops = some (s, tr)) (k c : Nat) (s1 : State) (e1 : List Ev)
+    (hs1 : step cfg s (Op.loadFail k) = some (s1, e1)) (s2 : State) (e2 : List Ev)
+    (hs2 : step cfg s1 (Op.lookup c k) = some (s2, e2)) :
+    (∀ c' k', Ev.failed c' k' ∉ e2) ∧ (Ev.started k ∈ e2 ∧ Ev.joined c k ∈ e2 ∨ ∃ v t, Ev.hit c k v t ∈ e2) := by
+  have hr1 : Reach cfg s1 (tr ++ e1) := Reach.step (run_reach h) hs1
+  have hk : k ∉ ikeys s1.inflight := finished_load_is_forgotten cfg ops s s1 tr e1 (Op.loadFail k) h k (Or.inl rfl) hs1
+  have hw : waitersOf k s1.inflight = none := waitersOf_none.mpr hk
+  have hx := expire_events k s1.now s1.entries
+  simp only [step] at hs2
+  split at hs2
+  · simp at hs2
+  · split at hs2
+    · next e0 h0 =>
+      simp at hs2; obtain ⟨rfl, rfl⟩ := hs2
+      refine ⟨?_, Or.inr ⟨e0.val, s1.now, by simp⟩⟩
+      intro c' k' hm
+      simp only [List.mem_append, List.mem_singleton] at hm
+      rcases hm with hm | hm
+      · have := hx _ hm; simp at this
+      · simp at hm
+    · simp only [hw] at hs2
+      simp at hs2; obtain ⟨rfl, rfl⟩ := hs2
+      refine ⟨?_, Or.inl ⟨by simp, by simp⟩⟩
+      intro c' k' hm
+      simp only [List.mem_append, List.mem_cons] at hm
+      rcases hm with hm | hm
+      · have := hx _ hm; simp at this
+      · simp at hm
+
+/-- Everything proved about the state after an op list also holds after a TURN of several blocks (`turn`): the turn is a sequence of
+blocks, so e.g. failure locality, single flight and the bound hold block by block inside it. -/
+theorem turn_stays_reachable (h : run cfg ops = some (s, tr)) (blocks : List Op) (hs : turn cfg s s blocks = some (s', e)) :
+    Reach cfg s' (tr ++ e) :=
+  turn_reach blocks (run_reach h) hs
+
 /-- The repaired defect, kept as a witness: for the code BEFORE the repair the same statement is false.  Callers 0 and 1 look up
 key 7 (one shared load); cancelling caller 0 cancels the load, and caller 1 raises `CancelledError` although nobody cancelled it
 and its load did not fail. -/
@@ -275,6 +326,10 @@ example : run ⟨3, 1⟩ [.lookup 0 5, .loadOk 5 none, .lookup 1 5, .lookup 2 6,
     = some (⟨0, [⟨6, 7, 3⟩], [(5, [3])]⟩,
         [.started 5, .joined 0 5, .put 5 none 0, .loaded 0 5 none 0, .hit 1 5 none 0, .started 6, .joined 2 6, .put 6 7 0,
          .evicted 5, .loaded 2 6 7 0, .started 5, .joined 3 5]) := by decide
+-- one loop turn: the load of key 7 fails and caller 2 looks key 7 up before the loop runs again: the old waiters get the error,
+-- caller 2 starts a load of its own
+example : turn ⟨3, 1⟩ ⟨0, [], [(7, [0, 1])]⟩ ⟨0, [], [(7, [0, 1])]⟩ [.loadFail 7, .lookup 2 7]
+    = some (⟨0, [], [(7, [2])]⟩, [.loadFailed 7, .failed 0 7, .failed 1 7, .started 7, .joined 2 7]) := by decide
 -- not behaviours: finishing a load that is not in flight; a suspended caller calling lookup again
 example : run ⟨3, 1⟩ [.loadOk 7 1] = none := by decide
 example : run ⟨3, 1⟩ [.lookup 0 7, .lookup 0 8] = none := by decide
